@@ -883,6 +883,21 @@ class StmtNorm(object):
                     changed[0] = True
                     self.bump('return-temp-forwarded')
                     continue
+                # (2') x = E; T = x  ->  T = E   for any target T, x used nowhere else
+                if isinstance(st, ast.Assign) and len(st.targets) == 1 and \
+                        isinstance(st.value, ast.Name) and \
+                        not isinstance(st.targets[0], ast.Name) and \
+                        isinstance(prev, ast.Assign) and len(prev.targets) == 1 and \
+                        isinstance(prev.targets[0], ast.Name) and \
+                        prev.targets[0].id == st.value.id and once(st.value.id) and \
+                        not any(isinstance(n_, ast.Name) and n_.id == st.value.id
+                                for n_ in ast.walk(st.targets[0])):
+                    st.value = prev.value
+                    out.pop()
+                    out.append(st)
+                    changed[0] = True
+                    self.bump('temp-forwarded-to-store')
+                    continue
                 # (2) copy of a value defined just before (only other copies in between)
                 if is_copy(st) and once(st.value.id):
                     x, y = st.value.id, st.targets[0].id
@@ -1150,6 +1165,17 @@ class StmtNorm(object):
                      isinstance(inner.test.op, ast.And) else [inner.test])
                 s.test = _loc(ast.BoolOp(op=ast.And(), values=list(vals)), s.test)
                 s.body = inner.body
+            # if a: T = a          T = a or b
+            # else: T = b   ==>
+            if len(s.body) == 1 and len(s.orelse) == 1 and \
+                    isinstance(s.body[0], ast.Assign) and isinstance(s.orelse[0], ast.Assign) and \
+                    len(s.body[0].targets) == 1 and len(s.orelse[0].targets) == 1 and \
+                    ast.dump(s.body[0].targets[0]) == ast.dump(s.orelse[0].targets[0]) and \
+                    is_simple(s.test) and ast.dump(s.test) == ast.dump(s.body[0].value):
+                self.bump('if-else-default-as-or')
+                return _loc(ast.Assign(
+                    targets=s.body[0].targets,
+                    value=ast.BoolOp(op=ast.Or(), values=[s.body[0].value, s.orelse[0].value])), s)
             if s.orelse and len(s.body) == 1 and isinstance(s.body[0], ast.Pass):
                 self.bump('empty-body-swapped')
                 s.test = negate(s.test)
@@ -1190,6 +1216,15 @@ class StmtNorm(object):
                 isinstance(s.value, ast.Constant) and s.value.value is None:
             s.value = None
             return s
+        if isinstance(s, ast.Expr) and isinstance(s.value, ast.Call) and \
+                dotted(s.value.func) == 'setattr' and len(s.value.args) == 3 and \
+                not s.value.keywords and isinstance(s.value.args[1], ast.Constant) and \
+                isinstance(s.value.args[1].value, str) and s.value.args[1].value.isidentifier():
+            # setattr(x, 'name', v) is x.name = v
+            self.bump('setattr-as-assignment')
+            a = s.value.args
+            return _loc(ast.Assign(targets=[ast.Attribute(value=a[0], attr=a[1].value,
+                                                         ctx=ast.Store())], value=a[2]), s)
         if hasattr(ast, 'Match') and isinstance(s, ast.Match):
             for c in s.cases:
                 c.body = self.block(c.body, loop_tail, func_tail)
